@@ -100,34 +100,56 @@ func runC13(t *testing.T, seed uint64, m *Mask) *Report {
 	nCallers := 1 + r.Intn(3)
 	var ops []*world.Op
 	issueAt := map[int]time.Duration{}
-	for k := 0; k < nCallers; k++ {
-		n := 2 + r.Intn(6)
-		var times []time.Duration
-		for j := 0; j < n; j++ {
-			if overlapping {
+	addOp := func(caller int, at time.Duration) {
+		op := world.GenOp(r, len(ops), seed, proto)
+		if len(op.Data) > 40 {
+			op.Data = op.Data[:40]
+		}
+		op.Pipe = nil
+		op.Caller = caller
+		op.HYield = r.Intn(4)
+		if r.Chance(0.4) {
+			op.HSleep = time.Duration(1+r.Intn(12)) * time.Millisecond
+		}
+		issueAt[op.Idx] = at
+		ops = append(ops, op)
+	}
+	if overlapping {
+		for k := 0; k < nCallers; k++ {
+			n := 2 + r.Intn(6)
+			var times []time.Duration
+			for j := 0; j < n; j++ {
 				times = append(times, time.Duration(r.Intn(int(lastFault)+1)))
-			} else if r.Chance(0.3) && len(cutTimes) > 0 {
-				// a call that is awaiting its reply when the cut lands
-				times = append(times, cutTimes[r.Intn(len(cutTimes))]-time.Duration(1+r.Intn(4))*time.Millisecond)
-			} else {
-				w := quiet[r.Intn(len(quiet))]
-				times = append(times, w.from+time.Duration(r.Intn(int(w.to-w.from)+1)))
+			}
+			sort.Slice(times, func(a, b int) bool { return times[a] < times[b] })
+			for _, at := range times {
+				addOp(k, at)
 			}
 		}
-		sort.Slice(times, func(a, b int) bool { return times[a] < times[b] })
+	} else {
+		// one caller works through the quiet windows, one operation at a time (so that a session that has
+		// given up is only ever used by one goroutine at a time); further tasks issue exactly one call each
+		// shortly before a cut, so that it is awaiting its reply when the connection is lost
+		n := 2 + r.Intn(8)
+		var times []time.Duration
 		for j := 0; j < n; j++ {
-			op := world.GenOp(r, len(ops), seed, proto)
-			if len(op.Data) > 40 {
-				op.Data = op.Data[:40]
+			w := quiet[r.Intn(len(quiet))]
+			times = append(times, w.from+time.Duration(r.Intn(int(w.to-w.from)+1)))
+		}
+		sort.Slice(times, func(a, b int) bool { return times[a] < times[b] })
+		for _, at := range times {
+			addOp(0, at)
+		}
+		nCallers = 1
+		for k := 0; k < r.Intn(4) && len(cutTimes) > 0; k++ {
+			addOp(nCallers, cutTimes[r.Intn(len(cutTimes))]-time.Duration(1+r.Intn(4))*time.Millisecond)
+			ops[len(ops)-1].Kind = "call"
+			if ops[len(ops)-1].Route == "note" {
+				ops[len(ops)-1].Route = "echo"
+			} else if ops[len(ops)-1].Route == "note_plain" {
+				ops[len(ops)-1].Route = "plain"
 			}
-			op.Pipe = nil
-			op.Caller = k
-			op.HYield = r.Intn(4)
-			if r.Chance(0.4) {
-				op.HSleep = time.Duration(1+r.Intn(12)) * time.Millisecond
-			}
-			issueAt[op.Idx] = times[j]
-			ops = append(ops, op)
+			nCallers++
 		}
 	}
 	rep := &Report{NOps: len(ops), NFaults: len(faults)}
@@ -234,7 +256,7 @@ func runC13(t *testing.T, seed uint64, m *Mask) *Report {
 					if d := issueAt[op.Idx] - time.Since(start); d > 0 {
 						simrt.Sleep(d)
 					}
-					if !overlapping && !inQuiet(quietAbs, time.Since(start)) && !nearCut(cutTimes, time.Since(start)) {
+					if !overlapping && time.Since(start) < lastFault && !inQuiet(quietAbs, time.Since(start)) && !nearCut(cutTimes, time.Since(start)) {
 						// running late (an earlier call took long): wait for the next quiet window
 						if d := nextQuiet(quietAbs, time.Since(start)) - time.Since(start); d > 0 {
 							simrt.Sleep(d)
@@ -446,7 +468,7 @@ func nextQuiet(q [][2]time.Duration, t time.Duration) time.Duration {
 		}
 	}
 	if best < 0 {
-		return t + time.Hour // no quiet window left: after the last fault everything is quiet
+		return t // no quiet window left: after the last fault everything is quiet
 	}
 	return best
 }
